@@ -236,7 +236,20 @@ def make_app(spec, log, body_hook=None):
     edits = {'before': {i: edit}, 'after': {j: edit}} with edit = ('rs',) | ('an',) | ('ro', k),
     shared = {key: ('r', is_err, rspec, body)} (module-level response objects of the application)"""
     from ombott import Ombott
-    app = Ombott(dict(catchall=bool(spec.get('catchall', True))))
+    if spec.get('default_app'):
+        # helpers like static_file / redirect work on the default application's request / response:
+        # serve on that application, stripped of what an earlier history registered on it
+        import importlib
+        om = importlib.import_module('ombott.ombott')
+        app = om.Globals.app
+        app.router = type(app.router)()
+        app._route_hooks = {}
+        app.error_handlers = {'404-hooks': {}}
+        for k in ('_hooks', 'to_route'):
+            app.__dict__.pop(k, None)
+        app.setup(dict(catchall=bool(spec.get('catchall', True))))
+    else:
+        app = Ombott(dict(catchall=bool(spec.get('catchall', True))))
     fns = {'before_request': [], 'after_request': []}
     fresh = {'before_request': len(spec['before']), 'after_request': len(spec['after'])}
     app._zoo_fns = fns
@@ -261,10 +274,26 @@ def make_app(spec, log, body_hook=None):
             app.add_hook(name, added)
 
     edits = spec.get('edits') or {}
+    rewrite = spec.get('rewrite')
+
+    def do_rewrite(i):
+        """a before-hook that rewrites the request before routing: strips the prefix the request
+        arrived with and / or overrides the method, through the request object or the environ"""
+        arrive = getattr(app, '_zoo_arrive', None)
+        if not rewrite or rewrite['hook'] != i or not arrive:
+            return
+        r = app.request
+        put = r.__setitem__ if rewrite['how'] == 'item' else r.environ.__setitem__
+        if arrive.get('prefix'):
+            put('PATH_INFO', r.environ['PATH_INFO'][len(arrive['prefix']):])
+        if arrive.get('method'):
+            put('REQUEST_METHOD', arrive['to_method'])
+
     for i, (effs, res) in enumerate(spec['before']):
         def bh(i=i, effs=effs, res=res):
             log.append(f'b{i}')
             do_edit('before_request', 'b', i, (edits.get('before') or {}).get(i))
+            do_rewrite(i)
             run_effs(app.response, effs)
             finish(log, res, app)
         fns['before_request'].append(bh)
@@ -281,6 +310,10 @@ def make_app(spec, log, body_hook=None):
         def errh(err, eh=eh):
             if eh[0] == 'c':
                 return build_out(log, eh[1], app)
+            if eh[0] == 'mut':
+                # application code annotates the error object it is handed, then answers
+                err.headers['X-Debug'] = app.request.path
+                return build_out(log, eh[1], app)
             if eh[0] == 'bd':
                 return err.body
             raise BoomError('errh')
@@ -292,6 +325,33 @@ def make_app(spec, log, body_hook=None):
         return orig(path, verb)
     app.to_route = to_route
     return app
+
+
+def describe_response(obj):
+    """the value of an HTTPResponse / HTTPError object built by a framework helper (static_file,
+    redirect, abort), as an AST of the zoo: ('rx', is_err, code, line, headers, cookies, body)"""
+    import re
+    from ombott import HTTPError
+    hdrs = [(k, list(v) if isinstance(v, list) else [v]) for k, v in obj._headers.items()]
+    cks = [(c.key, c.value) for c in obj._cookies.values()] if obj._cookies else []
+    body = obj.body
+    if body is None:
+        b = ('f', 'none')
+    elif isinstance(body, str):
+        b = ('t', body) if body else ('f', 'str')
+    elif isinstance(body, bytes):
+        b = ('b', body) if body else ('f', 'bytes')
+    elif hasattr(body, 'read') and hasattr(body, 'name'):
+        with open(body.name, 'rb') as f:
+            b = ('fl', 900001, True, True, f.read())
+    else:
+        # _file_iter_range(fp, offset, n): the slice Content-Range announces
+        m = re.fullmatch(r'bytes (\d+)-(\d+)/(\d+)', obj._headers.get('Content-Range', ''))
+        fp = body.gi_frame.f_locals['fp']
+        with open(fp.name, 'rb') as f:
+            data = f.read()[int(m.group(1)):int(m.group(2)) + 1]
+        b = ('it', 900002, True, [('b', data)], 'gen')
+    return ('rx', isinstance(obj, HTTPError), obj._status_code, obj._status_line, hdrs, cks, b)
 
 
 def hooks_now(app):
@@ -322,6 +382,12 @@ def install_route(app, log, req, cur):
                         said = pre(app, kw)
                         if isinstance(said, str):
                             return said            # the handler answers with what it read
+                        if isinstance(said, tuple) and said[0] == 'obj':
+                            # the handler answers with the object a framework helper built
+                            cur['described'] = (said[1], describe_response(said[2]))
+                            if said[1] == 'rr':
+                                raise said[2]
+                            return said[2]
                     return finish(log, res, app)
                 except Exception as e:
                     from ombott import HTTPResponse
@@ -370,8 +436,9 @@ def make_environ(req, log, body=b'', extra=None):
     raw = path.encode('utf8').decode('latin1')
     if not req['path_ok']:
         raw += '\xff'
-    env['REQUEST_METHOD'] = req['method']
-    env['PATH_INFO'] = raw
+    arrive = req.get('arrive') or {}
+    env['REQUEST_METHOD'] = arrive.get('method') or req['method']
+    env['PATH_INFO'] = (arrive.get('prefix') or '') + raw
     env['QUERY_STRING'] = req.get('query', '')
     env['wsgi.errors'] = ErrStream(log)
     env['wsgi.input'] = io.BytesIO(body)
@@ -384,12 +451,16 @@ def make_environ(req, log, body=b'', extra=None):
     return env
 
 
-def url_repr(env, req, config=None):
-    """repr(html.escape(request.url)) for the request as `_handle` initialises it"""
+def url_repr(env, req, config=None, arrival=False):
+    """repr(html.escape(request.url)) for the request as `_handle` initialises it (for a request a
+    hook rewrites: as the hook leaves it, or with arrival=True as it came in)"""
     from ombott import Request
     e = dict(env)
     if req['path_ok']:
         e['PATH_INFO'] = e['PATH_INFO'].encode('latin1').decode('utf8')
+    arrive = req.get('arrive')
+    if arrive and not arrival and arrive.get('prefix'):
+        e['PATH_INFO'] = e['PATH_INFO'][len(arrive['prefix']):]
     return repr(html.escape(Request(e, config=config).url))
 
 
@@ -423,6 +494,7 @@ def serve_one(app, log, cur, req, body=b'', extra=None, pre=None, validate=False
     del log[:]
     if hasattr(log, 'produced'):
         log.produced, log.failed = set(), False
+    app._zoo_arrive = dict(req['arrive'], to_method=req['method']) if req.get('arrive') else None
     install_route(app, log, req, cur)
     if req['route'][0] == 'h':
         cur['prog'] = (req['route'][1], req['route'][2], pre)
@@ -430,6 +502,7 @@ def serve_one(app, log, cur, req, body=b'', extra=None, pre=None, validate=False
     if input_cls is not None:
         env['wsgi.input'] = input_cls(body)
     urlrepr = url_repr(env, req, app.config)
+    urlrepr_arrival = url_repr(env, req, app.config, arrival=True) if req.get('arrive') else None
     if keep is not None:
         keep.append(weakref.ref(env))
         keep.append(weakref.ref(env['wsgi.input']))
@@ -470,7 +543,8 @@ def serve_one(app, log, cur, req, body=b'', extra=None, pre=None, validate=False
             escaped = type(e).__name__
     del env
     return dict(log=list(log), starts=starts, data=data, shape=shape, cl=w.inserted, escaped=escaped,
-                complaints=complaints, urlrepr=urlrepr, hooks=hooks_now(app),
+                complaints=complaints, urlrepr=urlrepr, urlrepr_arrival=urlrepr_arrival, hooks=hooks_now(app),
+                described=cur.pop('described', None),
                 produced=set(getattr(log, 'produced', ())), failed=getattr(log, 'failed', False))
 
 
@@ -543,6 +617,16 @@ def ser_item(it):
 
 def ser_out(o):
     k = o[0]
+    if k == 'rx':
+        toks = ['r', b01(o[1]), str(o[2]), hs(o[3]), str(len(o[4]))]
+        for name, vals in o[4]:
+            toks += [hs(name), str(len(vals))]
+            for v in vals:
+                toks += ['g', hs(v)]
+        toks.append(str(len(o[5])))
+        for ck, cv in o[5]:
+            toks += [hs(ck), hs(cv)]
+        return toks + ser_out(o[6])
     if k == 'sh':
         return ser_out(_SHARED[o[1]])      # the model sees the object's value
     if k == 'f':
@@ -614,7 +698,7 @@ def ser_app(spec):
     toks.append(str(len(spec['errh'])))
     for code, eh in spec['errh']:
         toks.append(str(code))
-        toks += (['c'] + ser_out(eh[1])) if eh[0] == 'c' else [eh[0]]
+        toks += (['c'] + ser_out(eh[1])) if eh[0] in ('c', 'mut') else [eh[0]]   # (the model: a handed-out error is a copy)
     return toks
 
 
@@ -632,9 +716,33 @@ def environ_path(req):
     return p if req['path_ok'] else p.encode('utf8').decode('latin1') + '\xff'
 
 
-def ser_req(req, urlrepr):
+def ser_req(req, urlrepr, urlrepr_arrival=None, rewrite=None):
+    arrive = req.get('arrive')
+    if arrive and rewrite:
+        ar = [str(rewrite['hook']), b01((arrive.get('method') or req['method']) == 'HEAD'),
+              hs((arrive.get('prefix') or '') + environ_path(req)), hs(urlrepr_arrival)]
+    else:
+        ar = ['-']
     return [str(req['id']), b01(req['method'] == 'HEAD'), b01(req['fw']), b01(req['path_ok']),
-            hs(environ_path(req)), hs(urlrepr), b01(req.get('json'))] + ser_route(req['route'])
+            hs(environ_path(req)), hs(urlrepr), b01(req.get('json'))] + ar + ser_route(req['route'])
+
+
+def add_rewrite(rng, spec, req):
+    """make the request arrive with a prefix and / or another method; a before-hook puts it right"""
+    if not req['path_ok']:
+        return
+    if not spec['before']:
+        spec['before'] = [([], ('ok',))]
+    arrive = {}
+    if rng.random() < .75:
+        arrive['prefix'] = rng.choice(['/v1', '/en', '/api/v2'])
+    if req['method'] != 'HEAD' and (not arrive or rng.random() < .4):
+        # method override (never from / to HEAD: whether the client gets a body must not be up to a hook)
+        arrive['method'] = rng.choice([m for m in ('GET', 'POST', 'PUT', 'DELETE') if m != req['method']])
+    if not arrive:
+        arrive['prefix'] = '/v1'
+    req['arrive'] = arrive
+    spec['rewrite'] = dict(hook=rng.randrange(len(spec['before'])), how=rng.choice(['item', 'environ']))
 
 
 # --------------------------------------------------------------------------------------
@@ -654,7 +762,7 @@ def _eff_may_fail(e):
 
 def _out_exc_free(o):
     k = o[0]
-    if k in ('f', 't', 'b', 'fl', 'sh'):
+    if k in ('f', 't', 'b', 'fl', 'sh', 'rx'):
         return True
     if k == 'r':
         return _out_exc_free(o[3])
@@ -698,6 +806,11 @@ STATUS_STRS = ['200 OK', '404 Brain not found', '204 Nothing', '304 Same', '299 
                ' 201 Created ', '101 Switch', '999 Z']
 STATUS_ODD_STRS = ['200', 'abc', 'abc def', '99 Low', '1000 High', ' ', '', '200 ', '+200 OK', '0200 OK',
                    '2_0_0 OK', '200\tOK x', '200 OK\r\nX: y', '-200 OK', '20 0 OK', '200\xa0OK z']
+
+
+# error handlers that annotate the error object they are handed (finding E: it used to be the
+# process-wide errors_map singleton; `_raise` now raises a per-request copy)
+MUTATING_ERRH = [True]
 
 
 class Gen:
@@ -853,6 +966,8 @@ class Gen:
 
     def errh(self):
         r = self.rng.random()
+        if MUTATING_ERRH[0] and r < .2:
+            return ('mut', self.out(1))
         if r < .7:
             return ('c', self.out(2))
         if r < .9:
